@@ -289,49 +289,7 @@ Section Demand.
     - apply IH; auto.
   Qed.
 
-  (* a selected expression whose variable is bound only reads attributes *)
-  Definition quiet (s s' : store) : Prop :=
-    Ext s s' /\ (forall x, npulls x s' = npulls x s) /\ (forall x, ended x s' = ended x s) /\ (AllY s -> AllY s').
-  Lemma quiet_refl s : quiet s s.
-  Proof. split; [apply Ext_refl | auto]. Qed.
-  Lemma quiet_trans a b c : quiet a b -> quiet b c -> quiet a c.
-  Proof.
-    intros (E1 & N1 & D1 & A1) (E2 & N2 & D2 & A2). split; [eapply Ext_trans; eauto|].
-    split; [intros; rewrite N2; auto|]. split; [intros; rewrite D2; auto | auto].
-  Qed.
-  Lemma quiet_get v a s : quiet s (get_ev v a s).
-  Proof. split; [apply Ext_get|]. split; [intros; apply npulls_get|]. split; [intros; apply ended_get | apply AllY_get]. Qed.
-
-  Lemma opnd_quiet e : forall b (k : binds * val -> store -> store * signal) s,
-    forallb (bound b) (opnd_vars e) = true ->
-    exists v s', quiet s s' /\ tr_opnd W D e b k s = k (b, v) s'.
-  Proof.
-    induction e as [v|x|e IH a]; intros b k s Hb; simpl.
-    - exists v, s. split; [apply quiet_refl | reflexivity].
-    - unfold opnd_vars in Hb. simpl in Hb. unfold bound in Hb. destruct (lookup b x) as [v|]; [|discriminate].
-      exists v, s. split; [apply quiet_refl | reflexivity].
-    - destruct (IH b (fun p s1 => k (fst p, getattr W (snd p) a) (get_ev (snd p) a s1)) s Hb) as (v & s' & Hq & Heq).
-      exists (getattr W v a), (get_ev v a s'). split; [eapply quiet_trans; [eauto | apply quiet_get] | exact Heq].
-  Qed.
-
-  Lemma drain_quiet e b s : forallb (bound b) (opnd_vars e) = true -> quiet s (drain W D e b s).
-  Proof.
-    intros Hb. unfold drain. destruct (opnd_quiet e b (fun _ s1 => (s1, Continue)) s Hb) as (v & s' & Hq & ->). exact Hq.
-  Qed.
-  Lemma drain_all_quiet sels b : forall s,
-    forallb (bound b) (flat_map opnd_vars sels) = true -> quiet s (drain_all W D sels b s).
-  Proof.
-    unfold drain_all. induction sels as [|e sels IH]; intros s Hb; simpl; [apply quiet_refl|].
-    simpl in Hb. rewrite forallb_app in Hb. apply andb_true_iff in Hb. destruct Hb as [H1 H2].
-    eapply quiet_trans; [apply drain_quiet; eauto | apply IH; auto].
-  Qed.
-
-  Lemma J_quiet s s' : quiet s s' -> J s -> J s'.
-  Proof. intros (E & _ & He & _). apply J_Ext_same; auto. Qed.
-  Lemma quiet_Post s s' : quiet s s' -> Post s s'.
-  Proof. intros (E & N & He & A). apply Post_same; auto. Qed.
-
-  (* the consumers *)
+  (* the consumers: they log the row and nothing else *)
   Definition hands_out (k : list val -> store -> store * signal) : Prop := forall row s, fst (k row s) = Yield row :: s.
   Lemma take_hands_out n : hands_out (take n). Proof. intros row s. reflexivity. Qed.
   Lemma take_all_hands_out : hands_out take_all. Proof. intros row s. reflexivity. Qed.
@@ -341,103 +299,19 @@ Section Demand.
   Lemma Post_yield r s : J s -> Post s (Yield r :: s).
   Proof. intros HJ. apply Post_same; auto; [apply Ext_cons|]. intros H. apply AllY_yield; auto. Qed.
 
-  Lemma rows_good k : hands_out k -> forall rows s, J s -> Good s (each k rows s).
+  Lemma hands_out_good k : hands_out k -> forall row b s, Pre b s -> Good s (k row s).
   Proof.
-    intros Hk. induction rows as [|r rows IH]; intros s HJ; simpl; [apply Good_ret|].
-    pose proof (Hk r s) as H. destruct (k r s) as [s1 sg]. simpl in H. subst s1.
-    destruct sg; simpl.
-    - eapply Good_shift; [apply Post_yield; auto|]. apply IH. apply J_yield; auto.
-    - split; simpl; [intros HA; apply AllY_yield; auto | discriminate].
+    intros Hk row b s (_ & HJ & HA). pose proof (Hk row s) as H. destruct (k row s) as [s1 sg]. simpl in H. subst s1.
+    split; simpl; [intros _; apply AllY_yield; auto | intros _; apply Post_yield; auto].
   Qed.
 
-  Lemma select_good sels b k s : hands_out k ->
-    forallb (bound b) (flat_map opnd_vars sels) = true -> J s -> Good s (tr_select W D sels b k s).
+  Lemma select_good sels : forall b (k : list val -> store -> store * signal) s,
+    Pre b s -> (forall row b0 s0, Pre b0 s0 -> Good s0 (k row s0)) -> Good s (tr_select W D sels b k s).
   Proof.
-    intros Hk Hb HJ. unfold tr_select. pose proof (drain_all_quiet sels b s Hb) as Hq.
-    eapply Good_shift; [apply quiet_Post; eauto|]. apply rows_good; auto. eapply J_quiet; eauto.
+    induction sels as [|e ss IH]; intros b k s HPre Hk; simpl; [eapply Hk; eauto|].
+    apply opnd_good; auto. intros p s0 H0. apply IH; auto. intros row b0 s1 H1. eapply Hk; eauto.
   Qed.
 End Demand.
-
-(* ---------- continuations are only called on results that bind what [must] promises ---------- *)
-Lemma andthen_ext {S} (o : S * signal) f f' : (forall s, f s = f' s) -> andthen o f = andthen o f'.
-Proof. destruct o as [s [|]]; simpl; auto. Qed.
-Lemma nmem_In x l : nmem x l = true <-> In x l.
-Proof.
-  unfold nmem. rewrite existsb_exists. split.
-  - intros [y [H1 H2]]. apply Nat.eqb_eq in H2. now subst.
-  - intros H. exists x. split; auto. apply Nat.eqb_refl.
-Qed.
-Lemma In_inter x l m : In x (inter l m) -> In x l /\ In x m.
-Proof. unfold inter. rewrite filter_In. intros [H1 H2]. split; auto. now apply nmem_In. Qed.
-
-Section Cong.
-  Variable W : world.
-  Variable D : domains.
-
-  Definition covers (b0 : binds) (vs : list var) (b' : binds) : Prop :=
-    forall x, bound b0 x = true \/ In x vs -> bound b' x = true.
-
-  Lemma enum_ext x (k k' : val -> store -> store * signal) s :
-    (forall v s0, k v s0 = k' v s0) -> enum D x k s = enum D x k' s.
-  Proof. intros H. unfold enum. f_equal. apply each_ext. intros iv s0. apply H. Qed.
-
-  Lemma opnd_cong e : forall b (k k' : binds * val -> store -> store * signal) s,
-    (forall p s0, covers b (opnd_vars e) (fst p) -> k p s0 = k' p s0) ->
-    tr_opnd W D e b k s = tr_opnd W D e b k' s.
-  Proof.
-    induction e as [v|x|e IH a]; intros b k k' s H; simpl.
-    - apply H. intros x [Hx|[]]. exact Hx.
-    - destruct (lookup b x) as [v|] eqn:Hx.
-      + apply H. intros y [Hy|[<-|[]]]; auto. simpl. unfold bound. now rewrite Hx.
-      + apply enum_ext. intros v s0. apply H. intros y Hy. simpl. rewrite bound_cons.
-        destruct Hy as [Hy|[<-|[]]]; [rewrite Hy; apply orb_true_r | now rewrite Nat.eqb_refl].
-    - apply IH. intros p s0 Hp. apply H. exact Hp.
-  Qed.
-
-  Lemma cond_cong c : forall b (k k' : res -> store -> store * signal) s,
-    (forall r s0, covers b (must c (negb (snd r))) (fst r) -> k r s0 = k' r s0) ->
-    tr_cond W D c b k s = tr_cond W D c b k' s.
-  Proof.
-    induction c as [op l r|l IHl r IHr|l IHl r IHr|l IHl r IHr|c IH|e c IH|y c IH]; intros b k k' s H; simpl; auto.
-    - destruct (right_first b r).
-      + apply opnd_cong. intros p1 s1 H1. apply opnd_cong. intros p2 s2 H2. apply H.
-        unfold covers. simpl. intros x [Hx|Hx].
-        * apply H2; left; apply H1; left; exact Hx.
-        * apply in_app_or in Hx. destruct Hx as [Hx|Hx]; [apply H2; right; exact Hx | apply H2; left; apply H1; right; exact Hx].
-      + apply opnd_cong. intros p1 s1 H1. apply opnd_cong. intros p2 s2 H2. apply H.
-        unfold covers. simpl. intros x [Hx|Hx].
-        * apply H2; left; apply H1; left; exact Hx.
-        * apply in_app_or in Hx. destruct Hx as [Hx|Hx]; [apply H2; left; apply H1; right; exact Hx | apply H2; right; exact Hx].
-    - apply IHl. intros r1 s1 H1. destruct (snd r1) eqn:F1; simpl in H1.
-      + apply H. unfold covers. simpl. intros x [Hx|Hx]; [apply H1; left; exact Hx|].
-        apply In_inter in Hx. destruct Hx as [Hx _]. apply H1. right. exact Hx.
-      + apply IHr. intros r2 s2 H2. apply H. unfold covers. simpl. intros x [Hx|Hx].
-        * apply H2; left; apply H1; left; exact Hx.
-        * destruct (snd r2); simpl in *.
-          -- apply In_inter in Hx. destruct Hx as [_ Hx]. apply in_app_or in Hx.
-             destruct Hx as [Hx|Hx]; [apply H2; left; apply H1; right; exact Hx | apply H2; right; exact Hx].
-          -- apply in_app_or in Hx.
-             destruct Hx as [Hx|Hx]; [apply H2; left; apply H1; right; exact Hx | apply H2; right; exact Hx].
-    - apply IHl. intros r1 s1 H1. destruct (snd r1) eqn:F1; simpl in H1.
-      + apply IHr. intros r2 s2 H2. apply H. unfold covers. simpl. intros x [Hx|Hx].
-        * apply H2; left; apply H1; left; exact Hx.
-        * destruct (snd r2); simpl in *.
-          -- apply in_app_or in Hx.
-             destruct Hx as [Hx|Hx]; [apply H2; left; apply H1; right; exact Hx | apply H2; right; exact Hx].
-          -- apply In_inter in Hx. destruct Hx as [_ Hx]. apply in_app_or in Hx.
-             destruct Hx as [Hx|Hx]; [apply H2; left; apply H1; right; exact Hx | apply H2; right; exact Hx].
-      + apply H. unfold covers. simpl. intros x [Hx|Hx]; [apply H1; left; exact Hx|].
-        apply In_inter in Hx. destruct Hx as [Hx _]. apply H1. right. exact Hx.
-    - assert (Hb : forall r0 s0, covers b [] (fst r0) -> k r0 s0 = k' r0 s0).
-      { intros r0 s0 H0. apply H. exact H0. }
-      rewrite (IHl b _ (fun p s1 => if snd p then tr_cond W D r (fst p) k' s1 else k' (fst p, false) s1)).
-      + apply andthen_ext. intros s1. apply IHr. intros r2 s2 H2. apply Hb. intros x [Hx|[]]. apply H2. left. exact Hx.
-      + intros r1 s1 H1. destruct (snd r1).
-        * apply IHr. intros r2 s2 H2. apply Hb. intros x [Hx|[]]. apply H2. left. apply H1. left. exact Hx.
-        * apply Hb. intros x [Hx|[]]. apply H1. left. exact Hx.
-    - apply IH. intros r1 s1 H1. apply H. simpl. rewrite negb_involutive. exact H1.
-  Qed.
-End Cong.
 
 (* ---------- the theorem ---------- *)
 Lemma ended_rev x s : ended x (rev s) = ended x s.
@@ -478,35 +352,20 @@ Proof.
   - apply AllY_nil.
 Qed.
 
-Lemma nsubset_forall l m : nsubset l m = true -> forall x, In x l -> In x m.
-Proof. unfold nsubset. rewrite forallb_forall. intros H x Hx. apply nmem_In. auto. Qed.
-
 Section Final.
   Variable W : world.
   Variable D : domains.
 
   Lemma run_demand q k : f10 q = true -> hands_out k -> AllY (fst (tr_run W D q k [])).
   Proof.
-    intros HF Hk. unfold tr_run. unfold f10 in HF. destruct (q_cond q) as [c|].
-    - apply andb_true_iff in HF. destruct HF as [Hu Hsub].
-      set (vs := flat_map opnd_vars (q_sels q)) in *.
-      set (kf := fun (p : res) (s1 : store) => if snd p then (s1, Continue) else tr_select W D (q_sels q) (fst p) k s1).
-      set (kf' := fun (p : res) (s1 : store) =>
-                    if snd p then (s1, Continue)
-                    else if forallb (bound (fst p)) vs then tr_select W D (q_sels q) (fst p) k s1
-                         else (s1, Continue)).
-      rewrite (cond_cong W D c [] kf kf' []).
-      + destruct (cond_good W D c Hu [] kf' [] Pre_nil) as [G _]; [|apply G; apply AllY_nil].
-        intros r s0 (HOB & HJ & HA). unfold kf'. destruct (snd r); [apply Good_ret|].
-        destruct (forallb (bound (fst r)) vs) eqn:Hb; [|apply Good_ret].
-        apply select_good; auto.
-      + intros r s0 Hc. unfold kf, kf'. destruct (snd r) eqn:F; auto. simpl in Hc.
-        replace (forallb (bound (fst r)) vs) with true; auto. symmetry.
-        apply forallb_forall. intros x Hx. apply Hc. right. eapply nsubset_forall; eauto.
-    - assert (Hb : forallb (bound []) (flat_map opnd_vars (q_sels q)) = true).
-      { apply forallb_forall. intros x Hx. destruct (nsubset_forall _ _ HF x Hx). }
-      destruct (select_good W D (q_sels q) [] k [] Hk Hb) as [G _]; [|apply G; apply AllY_nil].
-      intros x H. discriminate.
+    intros HF Hk. unfold tr_run. unfold f10 in HF.
+    assert (Hsel : forall b s, Pre b s -> Good s (tr_select W D (q_sels q) b k s)).
+    { intros b s HP. apply select_good; auto. intros row b0 s0 H0. eapply hands_out_good; eauto. }
+    destruct (q_cond q) as [c|].
+    - destruct (cond_good W D c HF [] (fun p s1 => if snd p then (s1, Continue) else tr_select W D (q_sels q) (fst p) k s1)
+                          [] Pre_nil) as [G _]; [|apply G; apply AllY_nil].
+      intros r s0 HP. destruct (snd r); [apply Good_ret | apply Hsel; auto].
+    - destruct (Hsel [] [] Pre_nil) as [G _]. apply G, AllY_nil.
   Qed.
 
   (* C10_demand *)
